@@ -177,7 +177,7 @@ impl<D: DataT, E: FromBoxError> MultipartStream<D, E> {
                                 && #[trigger] s.next_item() == r))
             },
     //@body
-    //@ loop 1: invariant /*@C01,C06,C07,C12,C20 #inv_wf shared*/ this.wf(), /*@C01,C12 #inv_remaining_untouched_until_a_frame_is_returned*/ this.remaining == old(self).remaining, *final(this) == *final(self),
+    //@ loop 1: invariant /*@C01,C06,C07,C12,C20 #inv_wf shared*/ this.wf(), /*@C01,C12 #inv_remaining_untouched_until_a_frame_is_returned shared*/ this.remaining == old(self).remaining, *final(this) == *final(self),
     //@ | this.ranges == old(self).ranges, this.entity == old(self).entity, this.part_headers@ == old(self).part_headers@,
     //@ | this.state == old(self).state || (this.state == old(self).state + 1 && this.state % 2 == 0 && this.cur.is_none()),
     //@ | old(self).terminal() ==> this.terminal(),
